@@ -53,6 +53,10 @@ pub struct GItem {
     pub kind: GKind,
     /// derive paths in emission order (token strings without spaces)
     pub derives: Vec<String>,
+    /// derive paths as token strings exactly as `quote!(#path).to_string()` prints them
+    pub derives_tok: Vec<String>,
+    /// other attributes as token strings (same order as `attrs`)
+    pub attrs_tok: Vec<String>,
     /// number of #[derive] attributes on the item
     pub derive_attrs: usize,
     /// other attributes (not derive, not doc) in emission order
@@ -87,6 +91,8 @@ pub fn tokens_nospace<T: quote::ToTokens>(t: &T) -> String {
 struct AttrInfo {
     docs: Vec<String>,
     derives: Vec<String>,
+    derives_tok: Vec<String>,
+    other_tok: Vec<String>,
     derive_attrs: usize,
     compact: bool,
     skip: bool,
@@ -98,6 +104,8 @@ fn attrs(a: &[Attribute]) -> AttrInfo {
     let mut info = AttrInfo {
         docs: vec![],
         derives: vec![],
+        derives_tok: vec![],
+        other_tok: vec![],
         derive_attrs: 0,
         compact: false,
         skip: false,
@@ -121,6 +129,7 @@ fn attrs(a: &[Attribute]) -> AttrInfo {
             info.derive_attrs += 1;
             let _ = at.parse_nested_meta(|m| {
                 info.derives.push(tokens_nospace(&m.path));
+                info.derives_tok.push(quote::ToTokens::to_token_stream(&m.path).to_string());
                 Ok(())
             });
         } else if at.path().is_ident("codec") {
@@ -143,9 +152,11 @@ fn attrs(a: &[Attribute]) -> AttrInfo {
             });
             if !recognised {
                 info.other.push(s);
+                info.other_tok.push(quote::ToTokens::to_token_stream(at).to_string());
             }
         } else {
             info.other.push(tokens_nospace(at));
+            info.other_tok.push(quote::ToTokens::to_token_stream(at).to_string());
         }
     }
     info
@@ -228,6 +239,8 @@ fn walk(m: &mut GMod, path: &[String], items: &[Item]) {
                         generics: g,
                         kind: GKind::Struct(fields(&s.fields)),
                         derives: a.derives,
+                        derives_tok: a.derives_tok,
+                        attrs_tok: a.other_tok,
                         derive_attrs: a.derive_attrs,
                         attrs: a.other,
                         docs: a.docs,
@@ -277,6 +290,8 @@ fn walk(m: &mut GMod, path: &[String], items: &[Item]) {
                         generics: g,
                         kind: GKind::Enum(vs),
                         derives: a.derives,
+                        derives_tok: a.derives_tok,
+                        attrs_tok: a.other_tok,
                         derive_attrs: a.derive_attrs,
                         attrs: a.other,
                         docs: a.docs,
